@@ -69,7 +69,7 @@ class Cfg:
     @staticmethod
     def for_tier(tier, seed=0):
         if tier == "thorough":
-            return Cfg(tier="thorough", nmax=4, nmax2=2, str_len=4, timeout_ms=120000, validate_samples=6, seed=seed, cross_check_mod=3)
+            return Cfg(tier="thorough", nmax=4, nmax2=2, str_len=4, timeout_ms=120000, validate_samples=6, seed=seed, cross_check_mod=5)
         return Cfg(seed=seed)
 
 
